@@ -276,18 +276,92 @@ theorem sideAged_mono {c : Option Rat} {t t' : Rat} (h : sideAged c t = true) (h
   obtain ⟨x, h1, h2, h3⟩ := h
   exact ⟨x, h1, h2, le_trans h3 ht⟩
 
+/-! ## sides -/
+
+@[simp] theorem side_setSide_same (e : Entry) (s : Bool) (x : Side) : (e.setSide s x).side s = x := by
+  cases s <;> rfl
+
+@[simp] theorem side_setSide_not (e : Entry) (s : Bool) (x : Side) : (e.setSide s x).side (!s) = e.side (!s) := by
+  cases s <;> rfl
+
+@[simp] theorem side_setSide_not' (e : Entry) (s : Bool) (x : Side) : (e.setSide (!s) x).side s = e.side s := by
+  cases s <;> rfl
+
+@[simp] theorem setSide_id (e : Entry) (s : Bool) (x : Side) : (e.setSide s x).id = e.id := by
+  cases s <;> rfl
+
+@[simp] theorem setSide_priority (e : Entry) (s : Bool) (x : Side) : (e.setSide s x).priority = e.priority := by
+  cases s <;> rfl
+
+theorem setSide_side (e : Entry) (s : Bool) : e.setSide s (e.side s) = e := by
+  cases s <;> rfl
+
+/-! ## `ent[s].changed = val`, one entry -/
+
+@[simp] theorem setChangedA_id (e : Entry) (s : Bool) (v : Option Rat) : (setChangedA e s v).1.id = e.id := by
+  simp only [setChangedA]; split <;> simp
+
+@[simp] theorem setChangedA_priority (e : Entry) (s : Bool) (v : Option Rat) :
+    (setChangedA e s v).1.priority = e.priority := by
+  simp only [setChangedA]; split <;> simp
+
+@[simp] theorem setChangedA_acts (e : Entry) (s : Bool) (v : Option Rat) : (setChangedA e s v).2 = [hookKeep e s v] := rfl
+
+/-- the written side: only `changed` moves -/
+theorem setChangedA_self (e : Entry) (s : Bool) (v : Option Rat) :
+    (setChangedA e s v).1.side s = { e.side s with changed := v } := by
+  simp only [setChangedA]; split <;> simp
+
+/-- the other side: untouched, or (id-less, stale flag, entry leaves the changeset) its flag is zeroed -/
+theorem setChangedA_other (e : Entry) (s : Bool) (v : Option Rat) :
+    (setChangedA e s v).1.side (!s) = e.side (!s) ∨
+    (hookKeep e s v = false ∧ truthy (e.side (!s)).changed = true ∧ truthyS (e.side (!s)).oid = false ∧
+      (setChangedA e s v).1.side (!s) = { e.side (!s) with changed := some 0 }) := by
+  simp only [setChangedA]
+  split
+  · rename_i h
+    simp only [Bool.and_eq_true, Bool.not_eq_true', Bool.not_eq_eq_eq_not, Bool.not_true] at h
+    right
+    refine ⟨h.1, h.2.1, h.2.2, ?_⟩
+    simp
+  · left; simp
+
+/-- a side that has an id is never touched by a write to the other side -/
+theorem setChangedA_other_oid (e : Entry) (s : Bool) (v : Option Rat) (h : truthyS (e.side (!s)).oid = true) :
+    (setChangedA e s v).1.side (!s) = e.side (!s) := by
+  rcases setChangedA_other e s v with h1 | ⟨_, _, h3, _⟩
+  · exact h1
+  · rw [h] at h3; exact absurd h3 (by simp)
+
+theorem setChangedA_other_oid' (e : Entry) (s : Bool) (v : Option Rat) (h : truthyS (e.side s).oid = true) :
+    (setChangedA e (!s) v).1.side s = e.side s := by
+  have := setChangedA_other_oid e (!s) v (by simpa using h)
+  simpa using this
+
 /-! ## punting, one entry -/
 
-theorem puntE_priority (p : Rat × Rat) (e : Entry) : (puntE p e).priority = e.priority + 1 := by
-  have hne : (e.priority == e.priority + 1) = false := by
-    simp only [beq_eq_false_iff_ne, ne_eq]; intro h; linarith
-  simp only [puntE, setPriorityE, hne, Bool.false_eq_true, if_false]
+@[simp] theorem bumpA_id (p : Rat × Rat) (x : Entry × Acts) (s : Bool) : (bumpA p x s).1.id = x.1.id := by
+  simp only [bumpA]; split <;> simp
 
-theorem puntE_id (p : Rat × Rat) (e : Entry) : (puntE p e).id = e.id := by
-  simp only [puntE, setPriorityE]
+@[simp] theorem bumpA_priority (p : Rat × Rat) (x : Entry × Acts) (s : Bool) : (bumpA p x s).1.priority = x.1.priority := by
+  simp only [bumpA]; split <;> simp
+
+theorem setPriorityA_priority (p : Rat × Rat) (e : Entry) (v : Rat) : (setPriorityA p e v).1.priority = v := by
+  simp only [setPriorityA]
+  split
+  · rename_i h; simpa using h
+  · rfl
+
+@[simp] theorem setPriorityA_id (p : Rat × Rat) (e : Entry) (v : Rat) : (setPriorityA p e v).1.id = e.id := by
+  simp only [setPriorityA]
   split
   · rfl
-  · split <;> rfl
+  · split <;> simp
+
+theorem puntE_priority (p : Rat × Rat) (e : Entry) : (puntE p e).priority = e.priority + 1 :=
+  setPriorityA_priority p e _
+
+theorem puntE_id (p : Rat × Rat) (e : Entry) : (puntE p e).id = e.id := setPriorityA_id p e _
 
 theorem puntK_priority (p : Rat × Rat) (k : Nat) (e : Entry) : (puntK p k e).priority = e.priority + k := by
   induction k generalizing e with
@@ -299,37 +373,57 @@ theorem puntK_id (p : Rat × Rat) (k : Nat) (e : Entry) : (puntK p k e).id = e.i
   | zero => rfl
   | succ k ih => simp only [puntK, ih, puntE_id]
 
-/-- one punt moves a positive change time forward by `0` or by `punt_secs` -/
-theorem puntE_side (p : Rat × Rat) (e : Entry) (s : Bool) (c : Rat) (hc : (e.side s).changed = some c) (hpos : 0 < c) :
-    ((puntE p e).side s).changed = some c ∨
-    ((puntE p e).side s).changed = some (c + (if s then p.2 else p.1)) := by
+/-- shifting side `s` itself (it has an id and a positive stamp) -/
+theorem bumpA_self (p : Rat × Rat) (x : Entry × Acts) (s : Bool) (c : Rat)
+    (hc : (x.1.side s).changed = some c) (hpos : 0 < c) :
+    (bumpA p x s).1.side s = { x.1.side s with changed := some (c + (if s then p.2 else p.1)) } := by
+  have ht : truthy (some c) = true := by simp [truthy]; exact ne_of_gt hpos
+  simp only [bumpA, hc, ht, if_true, setChangedA_self, orZero]
+
+/-- shifting the other side leaves a side that has an id alone -/
+theorem bumpA_other (p : Rat × Rat) (x : Entry × Acts) (s : Bool) (ho : truthyS (x.1.side s).oid = true) :
+    (bumpA p x (!s)).1.side s = x.1.side s := by
+  simp only [bumpA]
+  split
+  · exact setChangedA_other_oid' x.1 s _ ho
+  · rfl
+
+/-- one punt moves a positive change time of a side that has an id forward by `0` or by `punt_secs`,
+    and touches nothing else of that side -/
+theorem puntE_side (p : Rat × Rat) (e : Entry) (s : Bool) (c : Rat) (hc : (e.side s).changed = some c) (hpos : 0 < c)
+    (ho : truthyS (e.side s).oid = true) :
+    (puntE p e).side s = e.side s ∨
+    (puntE p e).side s = { e.side s with changed := some (c + (if s then p.2 else p.1)) } := by
   have hne : (e.priority == e.priority + 1) = false := by
     simp only [beq_eq_false_iff_ne, ne_eq]; intro h; linarith
-  have ht : truthy (some c) = true := by simp [truthy]; exact ne_of_gt hpos
-  cases s with
-  | false =>
-    simp only [Entry.side, Bool.false_eq_true, if_false] at hc ⊢
-    simp only [puntE, setPriorityE, hne, Bool.false_eq_true, if_false]
-    split
-    · right; simp [bump, hc, ht, orZero]
-    · left; exact hc
-  | true =>
-    simp only [Entry.side, if_true] at hc ⊢
-    simp only [puntE, setPriorityE, hne, Bool.false_eq_true, if_false]
-    split
-    · right; simp [bump, hc, ht, orZero]
-    · left; exact hc
+  simp only [puntE, setPriorityE, setPriorityA, hne, Bool.false_eq_true, if_false]
+  split
+  · right
+    cases s with
+    | false =>
+      have h1 := bumpA_self p (e, []) false c hc hpos
+      have h2 := bumpA_other p (bumpA p (e, []) false) false (by rw [h1]; exact ho)
+      show ((bumpA p (bumpA p (e, []) false) true).1.side false) = _
+      simp only [Bool.not_false] at h2
+      rw [h2, h1]
+    | true =>
+      have h1 := bumpA_other p (e, []) true ho
+      simp only [Bool.not_true] at h1
+      have h2 := bumpA_self p (bumpA p (e, []) false) true c (by rw [h1]; exact hc) hpos
+      show ((bumpA p (bumpA p (e, []) false) true).1.side true) = _
+      rw [h2, h1]
+  · left; cases s <;> rfl
 
 theorem puntK_side (p : Rat × Rat) (s : Bool) (hp : 0 ≤ (if s then p.2 else p.1)) (k : Nat) (e : Entry) (c : Rat)
-    (hc : (e.side s).changed = some c) (hpos : 0 < c) :
+    (hc : (e.side s).changed = some c) (hpos : 0 < c) (ho : truthyS (e.side s).oid = true) :
     ∃ j : Nat, j ≤ k ∧ ((puntK p k e).side s).changed = some (c + j * (if s then p.2 else p.1)) := by
   induction k generalizing e c with
   | zero => exact ⟨0, le_refl _, by simp [puntK, hc]⟩
   | succ k ih =>
-    rcases puntE_side p e s c hc hpos with h | h
-    · obtain ⟨j, hj, hj'⟩ := ih (puntE p e) c h hpos
+    rcases puntE_side p e s c hc hpos ho with h | h
+    · obtain ⟨j, hj, hj'⟩ := ih (puntE p e) c (by rw [h]; exact hc) hpos (by rw [h]; exact ho)
       exact ⟨j, Nat.le_succ_of_le hj, by simpa [puntK] using hj'⟩
-    · obtain ⟨j, hj, hj'⟩ := ih (puntE p e) _ h (by linarith)
+    · obtain ⟨j, hj, hj'⟩ := ih (puntE p e) _ (by rw [h]) (by linarith) (by rw [h]; exact ho)
       refine ⟨j + 1, Nat.succ_le_succ hj, ?_⟩
       simp only [puntK, hj']
       congr 1
@@ -342,20 +436,108 @@ theorem get?_id {st : St} {id : Nat} {e : Entry} (h : st.get? id = some e) : e.i
   have := List.find?_some h
   simpa using this
 
-theorem get?_mapId_same (st : St) (id : Nat) (f : Entry → Entry) (hf : ∀ e, (f e).id = e.id) :
-    (st.mapId id f).get? id = (st.get? id).map f := by
-  simp only [St.get?, St.mapId]
+theorem get?_mem {st : St} {id : Nat} {e : Entry} (h : st.get? id = some e) : e ∈ st.ents :=
+  List.mem_of_find?_eq_some h
+
+theorem get?_put_same (st : St) (e e' : Entry) (h : st.get? e'.id = some e) : (st.put e').get? e'.id = some e' := by
+  simp only [St.get?, St.put] at *
+  generalize st.ents = l at h ⊢
+  induction l with
+  | nil => simp at h
+  | cons a l ih =>
+    simp only [List.map_cons, List.find?_cons] at h ⊢
+    cases hb : (a.id == e'.id) with
+    | true => simp
+    | false => simp only [hb, Bool.false_eq_true, if_false] at h ⊢; exact ih h
+
+theorem get?_put_other (st : St) (e' : Entry) (j : Nat) (hj : j ≠ e'.id) : (st.put e').get? j = st.get? j := by
+  simp only [St.get?, St.put]
   induction st.ents with
   | nil => rfl
   | cons a l ih =>
     simp only [List.map_cons, List.find?_cons]
-    cases hb : (a.id == id) with
-    | true => simp only [if_true, hf, hb, Option.map_some]
-    | false => simp only [Bool.false_eq_true, if_false, hb]; exact ih
+    cases hb : (a.id == e'.id) with
+    | true =>
+      have ha : a.id = e'.id := by simpa using hb
+      have h1 : (e'.id == j) = false := by simp [Ne.symm hj]
+      have h2 : (a.id == j) = false := by rw [ha]; exact h1
+      simp only [if_true, h1, h2]; exact ih
+    | false =>
+      simp only [Bool.false_eq_true, if_false]
+      cases (a.id == j) with
+      | true => rfl
+      | false => exact ih
 
-theorem get?_add (st : St) (i j : Nat) : (st.add i).get? j = st.get? j := by
-  simp only [St.add, St.get?]; split <;> rfl
+@[simp] theorem get?_act (st : St) (id j : Nat) (a : Acts) : (st.act id a).get? j = st.get? j := rfl
 
-theorem get?_discard (st : St) (i j : Nat) : (st.discard i).get? j = st.get? j := rfl
+/-- after a hooked write on entry `id`: that entry is the written one -/
+theorem withE_get?_same (st : St) (id : Nat) (f : Entry → Entry × Acts) (e : Entry)
+    (h : st.get? id = some e) (hf : (f e).1.id = e.id) :
+    (st.withE id f).get? id = some (f e).1 := by
+  have hid := get?_id h
+  simp only [St.withE, h, get?_act]
+  have := get?_put_same st e (f e).1 (by rw [hf, hid]; exact h)
+  rwa [hf, hid] at this
+
+/-- … and every other entry is untouched -/
+theorem withE_get?_other (st : St) (id j : Nat) (f : Entry → Entry × Acts)
+    (hf : ∀ e, (f e).1.id = e.id) (hj : j ≠ id) :
+    (st.withE id f).get? j = st.get? j := by
+  simp only [St.withE]
+  cases h : st.get? id with
+  | none => rfl
+  | some e =>
+    simp only [get?_act]
+    exact get?_put_other st _ j (by rw [hf, get?_id h]; exact hj)
+
+theorem withE_none (st : St) (id : Nat) (f : Entry → Entry × Acts) (h : st.get? id = none) : st.withE id f = st := by
+  simp only [St.withE, h]
+
+/-! ## changeset membership after replaying actions -/
+
+theorem mem_addId (p : List Nat) (id j : Nat) : j ∈ addId p id ↔ j ∈ p ∨ j = id := by
+  simp only [addId]
+  split
+  · rename_i h
+    have : id ∈ p := by simpa using h
+    constructor
+    · exact Or.inl
+    · rintro (h | rfl)
+      · exact h
+      · exact this
+  · simp
+
+theorem mem_discardId (p : List Nat) (id j : Nat) : j ∈ discardId p id ↔ j ∈ p ∧ j ≠ id := by
+  simp [discardId]
+
+theorem getLast?_getD_cons (y : Bool) (a : List Bool) (d d' : Bool) :
+    ((y :: a).getLast?).getD d = ((y :: a).getLast?).getD d' := by
+  cases h : (y :: a).getLast? with
+  | none => simp at h
+  | some v => rfl
+
+/-- membership after a run of actions: the last action decides for `id`, nothing changes for the others -/
+theorem mem_foldl_acts (a : Acts) (p : List Nat) (id j : Nat) :
+    j ∈ a.foldl (fun p a => if a then addId p id else discardId p id) p ↔
+      (if j = id then (a.getLast?.getD (decide (id ∈ p)) = true) else j ∈ p) := by
+  induction a generalizing p with
+  | nil => by_cases h : j = id <;> simp [h]
+  | cons x a ih =>
+    simp only [List.foldl_cons]
+    rw [ih]
+    by_cases h : j = id
+    · simp only [h, if_true]
+      cases a with
+      | nil =>
+        cases x <;> simp [mem_addId, mem_discardId]
+      | cons y a => rw [List.getLast?_cons_cons, getLast?_getD_cons y a _ (decide (id ∈ p))]
+    · simp only [h, if_false]
+      cases x
+      · simp [mem_discardId, h]
+      · simp [mem_addId, h]
+
+theorem mem_act (st : St) (id j : Nat) (a : Acts) :
+    j ∈ (st.act id a).pending ↔ (if j = id then (a.getLast?.getD (decide (id ∈ st.pending)) = true) else j ∈ st.pending) :=
+  mem_foldl_acts a st.pending id j
 
 end CS.Sched
